@@ -161,7 +161,7 @@ func driveC10(c *Ctx) {
 	}
 	for k := 1; k <= n+1 && k <= 8; k++ {
 		run(&FaultPlan{FailCall: k}, fmt.Sprintf("call %d errs", k))
-		for _, b := range []string{"nilnil", "self", "wrong", "shared", "same-id"} {
+		for _, b := range []string{"nilnil", "self", "wrong", "shared", "same-id", "cyclic", "dag"} {
 			if b == "self" && !selfOK {
 				continue
 			}
